@@ -4,6 +4,8 @@ package main
 // and Sum applies the family's injective uninterpreted function.
 
 import (
+	"go/types"
+
 	"golang.org/x/tools/go/ssa"
 )
 
@@ -27,11 +29,14 @@ func (h *HasherObj) Invoke(m *Machine, method string, a []Value) Value {
 		return Tuple{m.tb.ConstI(int64(len(bs)), 64), Iface{}}
 	case "Sum":
 		out := m.hashUF(h.family, h.buf, h.size)
-		var pre []*Term
-		if sl, ok := a[0].(Slice); ok && !sl.IsNil() {
-			pre = m.bytesOf(sl)
+		add := make([]Value, len(out))
+		for i, t := range out {
+			add[i] = t
 		}
-		return m.mkBytes(append(append([]*Term{}, pre...), out...))
+		if sl, ok := a[0].(Slice); ok && !sl.IsNil() {
+			return Slice{v: goAppend(sl.v, add)} // appends in place when the capacity allows (hash.Sum(buf[:0]))
+		}
+		return Slice{v: add}
 	case "Read": // sha3 ShakeHash / KeccakState
 		sl := a[0].(Slice)
 		out := m.hashUF(h.family, h.buf, len(sl.v))
@@ -92,6 +97,49 @@ func registerHash(p *Program) {
 			arr[i] = out[i]
 		}
 		return arr
+	}
+	// hex renderings of addresses / hashes are only used in messages: opaque strings
+	for _, n := range []string{"(github.com/ethereum/go-ethereum/common.Address).Hex", "(github.com/ethereum/go-ethereum/common.Address).String",
+		"(github.com/ethereum/go-ethereum/common.Hash).Hex", "(github.com/ethereum/go-ethereum/common.Hash).String",
+		"(github.com/ethereum/go-ethereum/common.Hash).TerminalString"} {
+		I[n] = func(m *Machine, fr *Frame, fn *ssa.Function, a []Value) Value {
+			return &Str{b: m.mkStr("0x<hex>").b, tainted: true}
+		}
+	}
+	I["(*sync.Pool).Get"] = func(m *Machine, fr *Frame, fn *ssa.Function, a []Value) Value {
+		p := a[0].(*Value)
+		st := (*p).(Struct)
+		sty := under(deref(fn.Signature.Recv().Type())).(*types.Struct)
+		for i := 0; i < sty.NumFields(); i++ {
+			if sty.Field(i).Name() == "New" {
+				if st[i] == nil {
+					return Iface{}
+				}
+				if f, ok := st[i].(*ssa.Function); ok && f == nil {
+					return Iface{}
+				}
+				return m.call(fr, st[i], nil)
+			}
+		}
+		return Iface{}
+	}
+	I["(*sync.Pool).Put"] = func(m *Machine, fr *Frame, fn *ssa.Function, a []Value) Value { return nil }
+	I["github.com/ethereum/go-ethereum/rlp.Encode"] = func(m *Machine, fr *Frame, fn *ssa.Function, a []Value) Value {
+		w := a[0].(Iface)
+		iv := a[1].(Iface)
+		if iv.t == nil {
+			return m.errIface(&ErrObj{kind: "new", msg: "rlp: nil"})
+		}
+		pl := iv.v
+		if p, ok := pl.(*Value); ok && p != nil {
+			pl = *p
+		}
+		bz := m.marshalOpaque("rlp", pl, iv.t)
+		if nat, ok := w.v.(Native); ok {
+			nat.Invoke(m, "Write", []Value{bz})
+			return Iface{}
+		}
+		panic(unsupported("rlp.Encode into a non-native writer"))
 	}
 	// net/url escaping of path segments: identity unless a '%' (or, for escaping, a byte outside
 	// the unreserved set) is present; those cases are explored only when feasible
